@@ -314,6 +314,13 @@ func forInnerLabels(f *forExpander) forStateFn {
 			f.next()
 			return forInnerLabels
 		}
+	case tokColon:
+		if len(f.labelBuf) > 0 {
+			// a colon after a label is optional, as it is outside of a block
+			f.next()
+			return forInnerLabels
+		}
+		return forInnerEmitLabels
 	default:
 		// not expecting legal input here, but we will let the parser deal with it
 		return forInnerEmitLabels
